@@ -171,6 +171,7 @@ func c03Labels(d ttmlDoc, r *ttmlRendering) (bool, []string) {
 
 func TestC03(t *testing.T) {
 	runWitnesses(t, "C03")
+	cliConvertCases(t, "C03", "ttml")
 	// Exhaustive over the time-expression syntaxes: every frame number below the rate for 5 rates x an h:m:s pool,
 	// every 1-3 digit fraction (1110 values) in clock time and in the h/m/s/ms offset forms.
 	sub(t, "timeforms", func(t *testing.T) {
